@@ -2,6 +2,7 @@ package c20
 
 import (
 	"fmt"
+	"strings"
 	"testing"
 	"time"
 	"unicode"
@@ -98,6 +99,9 @@ func gen1(t *rapid.T) Case {
 			c.Opts += string(l)
 		}
 	}
+	if rapid.IntRange(0, 4).Draw(t, "optr") == 0 {
+		c.Opts += "r" // RightToLeft: literals, sets and backreferences are compared through the right-to-left opcodes
+	}
 	base := ast.Opts{I: true}
 	for _, l := range c.Opts {
 		switch l {
@@ -115,6 +119,24 @@ func gen1(t *rapid.T) Case {
 		root = gen.Accel(t, gen.Cfg{Depth: 2, CaseSafe: true, Inline: "ms", Letters: []rune("abcxyABXéÉλΛжЖ01 -")})
 	} else {
 		root = gen.Pattern(t, cfg)
+	}
+	if rapid.IntRange(0, 5).Draw(t, "lookbackref") == 0 {
+		// a backreference (and a literal) evaluated inside a lookbehind, i.e. right to left:
+		// (w)-w(?<=\1) and (w)-w(?<=w-\1) must accept any casing of either copy
+		w := rapid.SliceOfN(rapid.SampledFrom([]rune("abxyABXéÉλΛжЖ")), 1, 3).Draw(t, "lbword")
+		var look *ast.Node
+		if rapid.Bool().Draw(t, "lbform") {
+			look = ast.Group(ast.GLookbehind, &ast.Node{K: ast.KBackref, Num: 1})
+		} else {
+			look = ast.Group(ast.GLookbehind, ast.Seq(ast.Lit(w...), ast.Lit('-'), &ast.Node{K: ast.KBackref, Num: 1}))
+		}
+		wrapped := ast.Seq(ast.Group(ast.GNumbered, ast.Lit(w...)), ast.Lit('-'), ast.Lit(w...), look)
+		wrapped.Kids[0].Num = 1
+		if rapid.Bool().Draw(t, "lbtail") && !strings.Contains(c.Opts, "n") {
+			root = ast.Seq(wrapped, ast.Group(ast.GNon, root))
+		} else {
+			root = wrapped
+		}
 	}
 	gen.Resolve(t, root, base, false, cfg)
 	c.AST = root
@@ -159,6 +181,8 @@ func options(c Case) regexp2.RegexOptions {
 			o |= regexp2.Singleline
 		case 'n':
 			o |= regexp2.ExplicitCapture
+		case 'r':
+			o |= regexp2.RightToLeft
 		}
 	}
 	return o
